@@ -566,7 +566,27 @@ func runConfig(r *runner) {
 				return "ret" + strconv.Itoa(core.Start(app2, exit))
 			}()
 		}
-		r.reply("valid=%s site=%s start=%s ~kind=%s", bit(valid && escaped == nil), site, start, kind)
+		// an embedding application that calls Start again on the context of an earlier valid run (ConfigurationValid is
+		// still set from it): a refused configuration must be refused all the same, before any subsystem starts
+		restart := "-"
+		if !valid {
+			viper.Reset()
+			viper.SetConfigType("toml")
+			_ = viper.ReadConfig(strings.NewReader(d.toml(files)))
+			lvl3 := zap.NewAtomicLevelAt(zap.ErrorLevel)
+			app3 := &protocol.ApplicationContext{Logger: zap.NewNop(), LogLevel: &lvl3, ConfigurationValid: true}
+			exit := make(chan os.Signal)
+			close(exit)
+			restart = func() (res string) {
+				defer func() {
+					if rec := recover(); rec != nil {
+						res = "crash"
+					}
+				}()
+				return "ret" + strconv.Itoa(core.Start(app3, exit))
+			}()
+		}
+		r.reply("valid=%s site=%s start=%s restart=%s ~kind=%s", bit(valid && escaped == nil), site, start, restart, kind)
 	}
 }
 
